@@ -188,14 +188,17 @@ CHECKS = {
         ],
     },
     "C18": {
-        "bounds": {"quick": "document mirror: every ASCII document <= 3 bytes over {a \\n}, one change that is either a full replacement or an incremental edit whose four position fields are UNCONSTRAINED 64-bit integers (negative, inverted, past-the-end, huge), text <= 1 byte: no panic for any positions, and for well-formed ranges the mirrored text equals the protocol's reference edit; two ranged edits in one notification (positions 0..3 symbolic) over three two-line documents; framing: 'Content-Length:' followed by every value <= 3 bytes over {0-9 - + space}: no panic, body bytes respected",
-                   "thorough": "documents <= 5 bytes; two arbitrary changes (positions -1..3) over documents <= 2 bytes; header values <= 4 bytes"},
-        "outside": "whole conversations through Server.Run: request dispatch, 'exactly one response per request id', malformed JSON, outgoing frame lengths and published diagnostics go through encoding/json (reflection), which this engine cannot execute; UTF-16 columns on non-ASCII text (the mirror treats columns as bytes: a defect the property file already records; not exercised here because the kernels are restricted to ASCII)",
+        "bounds": {"quick": "document mirror: every ASCII document <= 3 bytes over {a \\n}, one change that is either a full replacement or an incremental edit whose four position fields are UNCONSTRAINED 64-bit integers (negative, inverted, past-the-end, huge), text <= 1 byte: no panic for any positions, and for well-formed ranges the mirrored text equals the protocol's reference edit; two ranged edits in one notification (positions 0..3 symbolic) over three two-line documents; framing: 'Content-Length:' followed by every value <= 3 bytes over {0-9 - + space}: no panic, body bytes respected; conversations: every history of <= 2 messages handed to Server.handleMessage, each message one of 21 method/params templates (initialize, initialized, didOpen, didChange full and ranged, didSave, didClose, hover, completion, formatting, documentSymbol, signatureHelp, codeAction, wrongly shaped and out-of-range params, shutdown, exit, $/cancelRequest, $/setTrace, unknown and empty method) x id kind (none, number, string) x 4 document texts, or one of 6 raw messages (truncated JSON, wrongly typed method, array, string, empty object, null id): exactly one response with the request's id per message with an id, none otherwise, every outgoing frame exactly framed and jsonrpc 2.0, published diagnostics count equals the recovery parser's error count on the mirrored text and lies inside the document; document histories of <= 3 open/change/save/close notifications",
+                   "thorough": "documents <= 5 bytes; two arbitrary changes (positions -1..3) over documents <= 2 bytes; header values <= 4 bytes; document histories <= 4"},
+        "outside": "the read loop of Server.Run itself (its two halves are covered: readMessage on symbolic headers, handleMessage on message histories); message texts outside the template tables (JSON bodies are concrete per path: encoding/json runs on the host through a type-directed bridge, so symbolic JSON bytes are not explored); the rate limiter firing (the clock stub never fills a window); UTF-16 columns on non-ASCII text (the mirror treats columns as bytes: a defect the property file already records; not exercised here because the kernels are restricted to ASCII)",
         "assumptions": ["the reference edit (refApply) states the protocol's position rules for ASCII text: a line past the end clamps to the end of the document, a character past the end of a line clamps to the line end"],
         "runs": [
             {"pkg": "pkg/lsp", "harness": "VxC18_Mirror1", "tiers": ["quick"], "generic": ["panic"], "expect_asserts": ["C18.mirror_content"]},
             {"pkg": "pkg/lsp", "harness": "VxC18_Mirror2R", "tiers": ["quick", "thorough"], "generic": ["panic"], "expect_asserts": ["C18.mirror_content2"]},
             {"pkg": "pkg/lsp", "harness": "VxC18_Framing3", "tiers": ["quick"], "generic": ["panic"], "expect_asserts": ["C18.frame_bytes"]},
+            {"pkg": "pkg/lsp", "harness": "VxC18_Conversation2", "generic": ["panic"], "expect_asserts": ["C18.one_response", "C18.no_response_to_notification", "C18.frames_exact", "C18.response_id", "C18.diagnostics_of_text"]},
+            {"pkg": "pkg/lsp", "harness": "VxC18_DocHistory3", "tiers": ["quick"], "generic": ["panic"], "expect_asserts": ["C18.diagnostics_of_text", "C18.diagnostic_in_document"]},
+            {"pkg": "pkg/lsp", "harness": "VxC18_DocHistory4", "tiers": ["thorough"], "generic": ["panic"], "expect_asserts": ["C18.diagnostics_of_text"], "thorough": {"timeout": 7200}},
             {"pkg": "pkg/lsp", "harness": "VxC18_Mirror1L", "tiers": ["thorough"], "generic": ["panic"]},
             {"pkg": "pkg/lsp", "harness": "VxC18_Mirror2", "tiers": ["thorough"], "generic": ["panic"], "thorough": {"timeout": 7200}},
             {"pkg": "pkg/lsp", "harness": "VxC18_Framing4", "tiers": ["thorough"], "generic": ["panic"]},
